@@ -561,6 +561,94 @@ def cur0(rootpat):
     return rootpat if rootpat is not None else (0, 0, "zeros")
 
 
+def explicit(t):
+    """same tree with append_image kids turned into add_image kids at their resolved offsets (insertion order kept)"""
+    a = t["al"]
+    ex = ceil_to(t["size"], a)
+    cur = len(t["bin"])
+    kids = []
+    for ap, k in t["kids"]:
+        k2 = explicit(k)
+        if ap:
+            k2["off"] = ex if ex else ceil_to(cur, a)
+        kids.append([0, k2])
+        cur = max(cur, k2["off"] + resolve(k2)["L"])
+    return T(t["size"], a, t["off"], t["bin"], t["pat"], kids)
+
+
+def sorted_kids(t):
+    """kids in sub_images order (stable by offset), recursively -- index paths of the implementation refer to this order"""
+    ks = sorted(((ap, sorted_kids(k)) for ap, k in t["kids"]), key=lambda x: x[1]["off"])
+    return T(t["size"], t["al"], t["off"], t["bin"], t["pat"], [[ap, k] for ap, k in ks])
+
+
+def gen_hist(rng):
+    """(tree, change, fresh tree): one layout-affecting change through the public API after an export"""
+    for _ in range(50):
+        t = gen_tree(rng, rng.choice([1, 2, 2, 3, 3, 4]), 0.0)
+        try:
+            resolve(t)
+            t = sorted_kids(explicit(t))
+            n = resolve(t)
+        except Unbuildable:
+            continue
+        if not valid(n, False):
+            continue
+        kind = rng.choice(["add", "append", "bin", "bin", "off"])
+        fresh = copy.deepcopy(t)
+        path, node = [], fresh
+        while node["kids"] and rng.random() < 0.6:
+            ix = rng.randrange(len(node["kids"]))
+            path.append(ix)
+            node = node["kids"][ix][1]
+        if kind in ("add", "append"):
+            L = resolve(node)["L"]
+            child = T(0, 1, 0, rnd_bytes(rng, rng.choice([1, 2, 5, 9])), rnd_pat(rng))
+            if kind == "add":
+                child["off"] = L + rng.choice([0, 0, 1, 4]) if rng.random() < 0.85 else max(L - 1, 0)
+            node["kids"].append([1 if kind == "append" else 0, child])
+            change = {"kind": kind, "path": path, "child": wire(child)}
+        elif kind == "bin":
+            nb = rnd_bytes(rng, rng.choice([0, 1, len(node["bin"]) + 1, len(node["bin"]) + 7, 33]))
+            node["bin"] = nb
+            change = {"kind": "bin", "path": path, "bin": nb.hex()}
+        else:
+            if not path:
+                continue
+            node["off"] = node["off"] + rng.choice([1, 4, 16, 64])
+            change = {"kind": "off", "path": path, "off": node["off"]}
+        return {"op": "hist", "t": t, "change": change, "fresh": fresh}
+    raise RuntimeError("no history case")
+
+
+def oracle_hist(c, res):
+    out = []
+    if res.get("build") != "ok":
+        return out
+    what = "BinaryImage.export"
+    if res["second"] != res["first"]:
+        out.append((f"history:second-export-differs:{what}", f"second len/validate/export {res['second']} != first {res['first']}"))
+    if res["after2"] != res["after"]:
+        out.append((f"history:second-export-differs:{what}:after-{c['change']['kind']}", "export() after the change is not repeatable"))
+    fr = res["fresh"]
+    if res["change"] == "ok" and "build" not in fr:
+        kind = c["change"]["kind"]
+        if res["after"]["len"] != fr["len"]:
+            out.append((f"history:stale-after-change:{kind}:len", f"len() after the change = {res['after']['len']}, fresh tree = {fr['len']}"))
+        if res["after"]["validate"] != fr["validate"]:
+            out.append((f"history:stale-after-change:{kind}:validate", f"validate() after the change -> {res['after']['validate']}, fresh tree -> {fr['validate']}"))
+        elif fr["validate"] == "ok" and res["after"]["export"] != fr["export"]:
+            out.append((f"history:stale-after-change:{kind}:export", f"export() after the change {res['after']['export'][:60]} != fresh tree {fr['export'][:60]}"))
+        # the fresh tree itself against the specification
+        try:
+            n = resolve(c["fresh"])
+            if valid(n, False) and valid(n, True) and not fr["export"].startswith("!") and bytes.fromhex(fr["export"]) != render(n):
+                out.append(("export:fill-or-own-binary", "fresh tree of the history stream differs from the specified bytes"))
+        except Unbuildable:
+            pass
+    return out
+
+
 def gen_streams(tier, rng):
     thorough = tier == "thorough"
     s = {}
@@ -596,6 +684,7 @@ def gen_streams(tier, rng):
         fm.append({"op": "fmt", "t": t, "formats": ["BIN", "HEX", "S19"], "exec": ex})
     s["save/load BIN+HEX+S19 of valid trees"] = fm
     s["binary-image merge configurations (load_from_config)"] = [gen_cfg(rng) for _ in range(4000 if thorough else 200)]
+    s["histories: export twice, change the layout, export again"] = [gen_hist(rng) for _ in range(800 if thorough else 80)]
     flat = [{"op": "bin", "content": c} for c in text_like_contents(rng, 40 if thorough else 10)]
     flat += [{"op": "bin", "content": rnd_bytes(rng, rng.choice([1, 2, 3, 4, 16, 33, 256]))} for _ in range(200 if thorough else 40)]
     s["BIN save/load of flat contents (text-like and random)"] = flat
@@ -605,6 +694,10 @@ def gen_streams(tier, rng):
 def to_payload(c):
     if c["op"] == "cfg":
         return c["cfg"]
+    if c["op"] == "hist":
+        return {"op": "hist", "tree": wire(c["t"]), "change": c["change"], "fresh": wire(c["fresh"]),
+                "operations": ["build tree", "len/validate/export", "len/validate/export", "change " + c["change"]["kind"],
+                               "len/validate/export", "len/validate/export", "build fresh tree", "len/validate/export"]}
     if c["op"] == "tree":
         return {"op": "tree", "tree": wire(c["t"]), "twin": c["twin"]}
     if c["op"] == "fmt":
@@ -614,6 +707,8 @@ def to_payload(c):
 
 # ------------------------------------------------------------------ model side
 def model_exprs(c):
+    if c["op"] == "hist":
+        return []
     if c["op"] in ("tree", "cfg"):
         return [f"run_case 1 [{vlib.coq_lit(lit(c['t']))}]"]
     if c["op"] == "fmt":
@@ -651,6 +746,8 @@ def impl_loaded_value(r):
 def compare(c, res, mvals):
     """list of (stream-part, impl value, model value) that disagree"""
     dis = []
+    if c["op"] == "hist":
+        return dis
     if c["op"] in ("tree", "cfg"):
         iv = impl_tree_value(res)
         if iv != mvals[0]:
@@ -717,7 +814,9 @@ def run(tier):
     nfail = 0
     for c, res in zip(flat, results):
         hits = []
-        if c["op"] in ("tree", "cfg"):
+        if c["op"] == "hist":
+            hits = oracle_hist(c, res)
+        elif c["op"] in ("tree", "cfg"):
             hits = oracle_tree(c["t"], res)
         elif c["op"] == "fmt":
             hits = oracle_tree(c["t"], res) + oracle_fmt(c["t"], c, res)
@@ -763,7 +862,12 @@ def run(tier):
             r = results[i]
             if r.get("build") != "ok":
                 continue
-            if flat[i]["op"] in ("tree", "fmt", "cfg"):
+            if flat[i]["op"] == "hist":
+                d = depth(flat[i]["t"])
+                hist[d] = hist.get(d, 0) + 1
+                if r["change"] == "ok" and r["after"] != r["first"]:
+                    seen.add(repr(to_payload(flat[i])))
+            elif flat[i]["op"] in ("tree", "fmt", "cfg"):
                 d = depth(flat[i]["t"])
                 hist[d] = hist.get(d, 0) + 1
                 if r["validate"] == "ok":
